@@ -88,7 +88,7 @@ def drive(job, tag="job"):
     return obs
 
 
-def project(text, stream):
+def project(text, stream, from_rec=1):
     """Exact, total projection of a reported match text to a span of the observed stream.
 
     A text that is string-equal to the concatenation of records s..e-1 becomes
@@ -101,10 +101,27 @@ def project(text, stream):
         project._cache = (stream, offs, {o: k for k, o in enumerate(offs)})
     _, offs, index = project._cache
     if text:
-        for k, o in enumerate(offs[:-1] if offs[-1] == len(stream) else offs):
+        nrec = len(offs) - 1 if offs[-1] == len(stream) else len(offs)
+        for k in range(max(0, from_rec - 1), nrec):
+            o = offs[k]
             if stream.startswith(text, o) and (o + len(text)) in index:
                 return {"s": k + 1, "e": index[o + len(text)] + 1, "raw": ""}
     return {"s": 0, "e": 0, "raw": text}
+
+
+def project_seq(texts, stream):
+    """Projection of an ordered result list: each text is located at the first instruction-aligned occurrence at or
+    after the end of the previous one (results are reported in scan order), so that identical records occurring
+    twice in a listing are told apart.  Still exact string equality only."""
+    out, start_rec = [], 1
+    for t in texts:
+        p = project(t, stream, start_rec)
+        if p["s"] == 0:
+            p = project(t, stream, 1)
+        out.append(p)
+        if p["s"]:
+            start_rec = max(start_rec, p["e"]) if p["e"] > p["s"] else start_rec
+    return out
 
 
 def case_of(o, p, l, mfm, ofm, rng=()):
@@ -115,8 +132,8 @@ def case_of(o, p, l, mfm, ofm, rng=()):
         return c
     res = o["res"]
     c["stream"] = o["stream"]
-    c["all"] = [project(t, o["stream"]) for t in res["LAT"]]
-    c["first"] = [project(t, o["stream"]) for t in res["LFT"]]
+    c["all"] = project_seq(res["LAT"], o["stream"])
+    c["first"] = project_seq(res["LFT"], o["stream"])
     c["all_addr"] = res["LAA"]
     c["first_addr"] = res["LFA"]
     c["bools"] = [res["BAT"], res["BFT"], res["BAA"], res["BFA"]]
